@@ -358,7 +358,11 @@ decreases self_.chars.len() - self_.p,'''],
     for nm, v in [("is_quoted", "Quoted"), ("is_unquoted", "Unquoted"), ("is_space", "Space"), ("is_punctuation", "Punctuation")]:
         u.fn(F, B, nm, ret="r", props=P, spec="ensures r == (self is %s)," % v)
     u.fn(F, B, "as_str", ret="r", props=P, spec="ensures r@ == tok_text(*self),")
-    u.fn(F, B, "unquote", ret="r", props=["C16"], spec="ensures (r is Some) == (self is Quoted),")
+    u.fn(F, B, "unquote", ret="r", props=["C16"],
+         spec="""ensures
+    (r is Some) == (self is Quoted),
+    // the content of the token's own text: between its delimiters, a doubled delimiter once
+    r is Some ==> ({ let t = tok_text(*self); if t.len() > 0 && s_delim_start(t[0]) { r->Some_0@ == unq_text(t, 1, t[0], false) } else { r->Some_0@.len() == 0 } }),""")
     u.emit("}\n")
     u.spec(DRIVER, "token::driver", props=["C16"])
     u.emit("} // verus!\nfn main() {}\n")
